@@ -71,6 +71,7 @@ func parseValue(dec *json.Decoder) (any, error) {
 		switch d {
 		case '{':
 			var o oobj
+			seen := map[string]struct{}{}
 			for dec.More() {
 				kt, err := dec.Token()
 				if err != nil {
@@ -84,6 +85,10 @@ func parseValue(dec *json.Decoder) (any, error) {
 				if err != nil {
 					return nil, err
 				}
+				if _, dup := seen[k]; dup {
+					return nil, fmt.Errorf("the key %q occurs twice in one object", k)
+				}
+				seen[k] = struct{}{}
 				o = append(o, okv{k, v})
 			}
 			_, err := dec.Token()
